@@ -110,7 +110,12 @@ TVReq == /\ l <= Len(Rec) /\ Rec[l].ev = "breq"
          /\ judged' = judged + 1 /\ l' = l + 1
          /\ UNCHANGED <<st, cur>>
 
-TVNext == TVReset \/ TVFlag \/ TVReq
+TVTeardown == /\ l <= Len(Rec) /\ Rec[l].ev = "teardown"
+              /\ viol' = AddViol(viol, TeardownViol(Rec[l], "backend-req-channel"), cur)
+              /\ l' = l + 1
+              /\ UNCHANGED <<st, judged, cur>>
+
+TVNext == TVTeardown \/ TVReset \/ TVFlag \/ TVReq
 TVSpec == TVInit /\ [][TVNext]_tvars
 Post == PostOK
 Report == ReportAt(l, judged, viol)
